@@ -234,6 +234,8 @@ func (c *kase) checkGet(what string, line, got string, exp *[]byte, panicked boo
 		if got != "v -" {
 			bz, _ := hex.DecodeString(strings.TrimPrefix(got, "v "))
 			g = []kv{{k, bz}}
+		} else if c.histV != nil && c.rolledBack(k, nil, true, *c.histV) {
+			g = []kv{{k, nil}} // "-" is also what a rolled-back write of the empty value reads as
 		}
 		if exp != nil {
 			e = []kv{{k, *exp}}
@@ -686,7 +688,11 @@ func (c *kase) checkHistory() {
 			same = bytes.Equal(now[i].k, was[i].k) && bytes.Equal(now[i].v, was[i].v)
 		}
 		if !same && c.wf {
-			c.fail("C10:history-changed", fmt.Sprintf("view as of committed version %d changed (now at version %d): was %s, now %s", v, c.ref.version, showIter(was), showIter(now)))
+			vv := v
+			c.histV = &vv
+			sig := c.histSig("C10:history-changed", now, was)
+			c.histV = nil
+			c.fail(sig, fmt.Sprintf("view as of committed version %d changed (now at version %d): was %s, now %s", v, c.ref.version, showIter(was), showIter(now)))
 		}
 		c.o.Count("oracle:history-rechecked")
 	}
